@@ -34,7 +34,7 @@ INGEST_TRUST = ["the insert face applies a block iff Do returns nil (or the faul
                 "the two overlaid runtime files change where randomness comes from, not what maps, select or the scheduler do"]
 
 
-def ingest(pid, technique, level_text, level_note, rule, probes, stall=False, quick_checks=120, design_ref=""):
+def ingest(pid, technique, level_text, level_note, rule, probes, stall=False, quick_checks=200, design_ref=""):
     return {
         "pkg": "ingestsim", "test": "TestIngest", "instrument": True, "instr_pkgs": ["./writer/...", "./reader/..."], "level": "exploration",
         "quick": {"workers": 16, "checks": quick_checks, "shrink": "45s", "worker_timeout": 1500},
